@@ -245,6 +245,15 @@ Fixpoint wrun (ops : list wop) (w : wstate) : list wout * wstate :=
   | o :: r => let '(out, w') := wstep o w in let '(outs, w'') := wrun r w' in (out :: outs, w'')
   end.
 
+(* between two transactions of a block: StateDB.Finalise (-> clearJournalAndRefund: new journal,
+   validRevisions truncated; the access list is NOT cleared, nextRevisionId keeps counting), and
+   whatever native transactions do to the native ledger *)
+Definition w_finalise (w : wstate) : wstate :=
+  WS (GS (JS (sbal (gs (wg w))) (snonce (gs (wg w))) (sacl (gs (wg w))) []) [] (gnext (wg w)))
+     (wacc w) (wsnap w) (wnat w).
+Definition w_set_native (m : gmap addr (Z * Z)) (w : wstate) : wstate :=
+  WS (wg w) (wacc w) (wsnap w) m.
+
 (** * the discipline (what the interpreter guarantees under Berlin rules), judged on the
       reference world *)
 
